@@ -23,6 +23,8 @@ SPEC = {
         {"name": "sys", "pkg": "./sys", "search_cases": 4000, "quick_cases": 300, "timeout_quick": 90, "only": ["flush_lists_all", "no_orphan_live_group"]},
         # "GET /alerts/groups shows exactly this partition": never a half-built one while a (re)started dispatcher is still loading (C14's engine)
         {"name": "workers", "pkg": "./workers", "search_cases": 4000, "quick_cases": 800, "only": ["groups_api_is_partition"]},
+        # never two live dispatchers (two live groups per key) while a reload is in progress (C17's engine, slow reload)
+        {"name": "reload", "pkg": "./reload", "search_cases": 4, "timeout_quick": 400, "timeout_thorough": 900, "timeout_search": 400, "only": ["successful_reload_applies"]},
     ],
     "rule": "random routing trees (<= 7 nodes, depth <= 3; group_by lists / [] / '...' / inherited; continue) through the real "
             "config.Load -> dispatch.NewRoute, a real dispatch.Dispatcher (8 ingestion workers) fed through a real mem.Alerts under "
